@@ -67,8 +67,8 @@ def is_model_count(t, attr):
 
 
 # ---------------------------------------------------------------------------------------------------------------------
-def labels_of(rv_branch):
-    """document of the result text -> {label: hole term}"""
+def labels_of(rv_branch, fused=None):
+    """document of the result text -> {label: hole term}; labels that do not start a line are collected in `fused`"""
     items = doc.doc_of(rv_branch)
     out = {}
     for i, it_ in enumerate(items[:-1]):
@@ -76,6 +76,8 @@ def labels_of(rv_branch):
             last = it_.text.split('\n')[-1]
             if last.endswith(': ') and isinstance(items[i + 1], doc.Hole):
                 out[last[:-2].strip()] = items[i + 1].term
+                if fused is not None and i > 0 and '\n' not in it_.text and last.startswith('optimal'):
+                    fused.append(last[:-2].strip())          # the value printed before runs straight into this label
     return out
 
 
@@ -162,7 +164,10 @@ def check_results(rep, repo, f):
     if len(inf) != 1 or len(full) != 1:
         rep.inconclusive('C07.R6', f.where, "one 'Infeasible' text and one statistics text", got='%d / %d alternatives' % (len(inf), len(full)))
         return None
-    labels = labels_of(full[0][1])
+    fused = []
+    labels = labels_of(full[0][1], fused)
+    rep.check(not fused, 'C07.R6', f.where, 'every statistic is printed on a line of its own', got='no line break between the previous value and %s' % fused[:3] if fused else 'one line each',
+              want="... + str(value) + '\\n'", construct='statistic lines run together')
     table = {}
     for label, (tier_, helper, order) in bf_table(repo).items():
         if label not in labels:
